@@ -241,3 +241,7 @@ def run(ctx: Ctx, rep: Report, tier: str):
     c.r4()
     c.r5()
     c.r6()
+    from rules.common import alias
+    from rules.C06 import C06
+    alias(rep, ["C06.R5"], "C07.R7", "what a restart reads back is complete: the loader re-indexes every stored entry on both sides and re-queues exactly the entries whose "
+          "persisted `changed` flag is set (C06.R5) - work that was recorded before the crash is neither lost nor invented", 4, lambda: C06(ctx, rep).r5())
